@@ -16,9 +16,17 @@ from . import coqterm
 ROOT = os.path.dirname(os.path.dirname(os.path.abspath(__file__)))
 COQ = os.path.join(ROOT, 'coq')
 BUILD = os.path.join(ROOT, 'build')
-HARNESS = os.path.join(ROOT, 'harness')
-TARGET = os.path.join(BUILD, 'target')
-REPO = '/repo'
+REPO = os.path.abspath(os.environ.get('VERIF_REPO', '/repo'))
+if REPO == '/repo':
+    HARNESS = os.path.join(ROOT, 'harness')
+    TARGET = os.path.join(BUILD, 'target')
+    GEN = os.path.join(COQ, 'Gen')
+else:
+    # checks run against another checkout (a scratch worktree with a seeded change): private harness copy, target dir and Gen dir
+    _tag = hashlib.sha256(REPO.encode()).hexdigest()[:10]
+    HARNESS = os.path.join(BUILD, 'alt-' + _tag, 'harness')
+    TARGET = os.path.join(BUILD, 'alt-' + _tag, 'target')
+    GEN = os.path.join(COQ, 'Gen')
 CFG_FLAG = '--cfg dmntk_verif'
 
 HYGIENE_RE = re.compile(
@@ -101,23 +109,18 @@ class Ctx:
                     for i, line in enumerate(open(p, errors='replace'), 1):
                         if HYGIENE_RE.search(line):
                             bad.append('%s:%d: %s' % (os.path.relpath(p, ROOT), i, line.strip()))
-        proj = open(os.path.join(COQ, '_CoqProject')).read().split('\n')
-        for l in proj:
-            l = l.strip()
-            if l and not l.endswith('.v') and l != '-Q . DV':
-                bad.append('_CoqProject: unexpected line %r' % l)
+        for extra in ('Makefile.local', 'CoqMakefile.local', 'Makefile.local-late'):
+            if os.path.exists(os.path.join(COQ, extra)):
+                bad.append('unexpected %s (could pass flags to coqc)' % extra)
         if bad:
             self.broken.append('hygiene-gate: ' + '; '.join(bad[:5]))
         return not bad
 
     def coq_make(self, targets, timeout=1500):
         with Lock('coq'):
-            mk = os.path.join(COQ, 'Makefile')
-            cp = os.path.join(COQ, '_CoqProject')
-            if not os.path.exists(mk) or os.path.getmtime(mk) < os.path.getmtime(cp):
-                rc, out = sh(['coq_makefile', '-f', '_CoqProject', '-o', 'Makefile'], cwd=COQ)
-                if rc != 0:
-                    return rc, out
+            rc, out = refresh_coq_project()
+            if rc != 0:
+                return rc, out
             return sh(['make', '-j16'] + targets, cwd=COQ, timeout=timeout)
 
     def proof_gate(self, props_file=None, gen_cb=None):
@@ -168,7 +171,9 @@ class Ctx:
 
     # ---------------------------------------------------------------- implementation
     def build_harness(self, release=False):
-        env = {'RUSTFLAGS': CFG_FLAG, 'CARGO_NET_OFFLINE': 'true'}
+        env = {'RUSTFLAGS': CFG_FLAG, 'CARGO_NET_OFFLINE': 'true', 'CARGO_TARGET_DIR': TARGET}
+        if REPO != '/repo':
+            sync_alt_harness()
         lockp = os.path.join(HARNESS, 'Cargo.lock')
         with Lock('cargo'):
             cmd = ['cargo', 'build', '--offline'] + (['--release'] if release else [])
@@ -319,8 +324,9 @@ class Ctx:
             'property_id': self.pid, 'tier': self.tier, 'seed': self.seed, 'level': level, 'coverage': cov,
             'assumptions': assumptions or [], 'wall_s': round(wall, 2), 'violations': len(self.violations) + (1 if (self.broken and not self.violations) else 0),
         }
-        os.makedirs(os.path.join(ROOT, 'evidence'), exist_ok=True)
-        with open(os.path.join(ROOT, 'evidence', self.pid + '.json'), 'w') as f:
+        evdir = os.path.join(ROOT, 'evidence') if REPO == '/repo' else os.path.join(os.path.dirname(HARNESS), 'evidence')
+        os.makedirs(evdir, exist_ok=True)
+        with open(os.path.join(evdir, self.pid + '.json'), 'w') as f:
             json.dump(ev, f, indent=1, default=str)
         for l in lines:
             print(l)
@@ -350,6 +356,42 @@ def parse_assumption_blocks(out):
     if cur is not None:
         blocks.append(cur)
     return blocks
+
+
+def coq_sources():
+    out = []
+    for d, ds, fs in os.walk(COQ):
+        ds.sort()
+        for f in sorted(fs):
+            if f.endswith('.v') and not f.startswith('.'):
+                out.append(os.path.relpath(os.path.join(d, f), COQ))
+    return sorted(out)
+
+
+def refresh_coq_project():
+    """_CoqProject is generated: `-Q . DV` plus every .v file under coq/ (no other flags can get in)."""
+    want = '-Q . DV\n' + '\n'.join(coq_sources()) + '\n'
+    cp = os.path.join(COQ, '_CoqProject')
+    mk = os.path.join(COQ, 'Makefile')
+    if not os.path.exists(cp) or open(cp).read() != want or not os.path.exists(mk):
+        open(cp, 'w').write(want)
+        return sh(['coq_makefile', '-f', '_CoqProject', '-o', 'Makefile'], cwd=COQ)
+    return 0, ''
+
+
+def sync_alt_harness():
+    """Copies /verif/harness with every /repo path replaced by VERIF_REPO (used only when VERIF_REPO is set)."""
+    src = os.path.join(ROOT, 'harness')
+    for d, _, fs in os.walk(src):
+        for f in fs:
+            sp = os.path.join(d, f)
+            dp = os.path.join(HARNESS, os.path.relpath(sp, src))
+            os.makedirs(os.path.dirname(dp), exist_ok=True)
+            data = open(sp, 'rb').read()
+            if f in ('Cargo.toml', 'config.toml'):
+                data = data.replace(b'"/repo/', ('"' + REPO + '/').encode()).replace(b'/verif/build/target', TARGET.encode())
+            if not os.path.exists(dp) or open(dp, 'rb').read() != data:
+                open(dp, 'wb').write(data)
 
 
 def load_allow():
